@@ -24,13 +24,14 @@ VARIABLES l,        \* next line to consume
           begun,    \* job key -> number of times the job's process started
           ended,    \* job key -> outcome of the last end
           failed,   \* instances with a failed job
+          weakp,    \* the program has an unforked merge over a run-time collection
           tainted,  \* the known "unforked-merge" defect has manifested in this run
           bad       \* violations found so far
 
-vars == <<l, run, exp, faults, begun, ended, failed, tainted, bad>>
+vars == <<l, run, exp, faults, begun, ended, failed, weakp, tainted, bad>>
 
 Init == /\ l = 1 /\ run = "" /\ exp = <<>> /\ faults = <<>> /\ begun = <<>> /\ ended = <<>>
-        /\ failed = {} /\ bad = <<>> /\ tainted = FALSE
+        /\ failed = {} /\ bad = <<>> /\ tainted = FALSE /\ weakp = FALSE
 
 Ev == Trace[l]
 Viol(p, what) == [run |-> run, line |-> l, prop |-> p, job |-> Ev.job, what |-> what]
@@ -49,7 +50,7 @@ RunBegin ==
     /\ run' = Ev.run
     /\ exp' = FnOf(Ev.jobs)
     /\ faults' = FnOf(Ev.faults)
-    /\ begun' = <<>> /\ ended' = <<>> /\ failed' = {} /\ tainted' = FALSE
+    /\ begun' = <<>> /\ ended' = <<>> /\ failed' = {} /\ tainted' = FALSE /\ weakp' = Ev.weak
     /\ UNCHANGED bad
 
 WeakBroken(e) == \E d \in Range(e.wdeps) : ~InstDone(d)
@@ -86,14 +87,14 @@ StageBegin ==
     /\ bad' = bad \o BeginViolations
     /\ begun' = (Ev.job :> (IF Ev.job \in DOMAIN begun THEN begun[Ev.job] + 1 ELSE 1)) @@ begun
     /\ tainted' = (tainted \/ (Ev.job \in DOMAIN exp /\ WeakBroken(exp[Ev.job])))
-    /\ UNCHANGED <<run, exp, faults, ended, failed>>
+    /\ UNCHANGED <<run, exp, faults, ended, failed, weakp>>
 
 StageEnd ==
     /\ Ev.ev = "StageEnd"
     /\ ended' = (Ev.job :> Ev.outcome) @@ ended
     /\ failed' = IF Ev.outcome # "ok" /\ Ev.job \in DOMAIN exp
                  THEN failed \cup {exp[Ev.job].inst} ELSE failed
-    /\ UNCHANGED <<run, exp, faults, begun, bad, tainted>>
+    /\ UNCHANGED <<run, exp, faults, begun, bad, tainted, weakp>>
 
 (* ---- guards on the final state ---- *)
 NoFault == \A k \in DOMAIN faults : faults[k].fault = ""
@@ -101,7 +102,7 @@ EndViolations ==
     LET st == Ev.outcome IN
     IF DOMAIN faults = {} \/ NoFault THEN
         (IF st \notin {"complete", "disabled"}
-         THEN <<Viol("C03", (IF tainted THEN "unforked-merge: " ELSE "")
+         THEN <<Viol("C03", (IF tainted \/ (weakp /\ Ev.kind = "merge-unresolved") THEN "unforked-merge: " ELSE "")
                             \o "the pipestance did not complete (state " \o st \o "): " \o Ev.txt)>>
          ELSE
             (IF \E k \in DOMAIN exp : ~exp[k].ghost /\ k \notin DOMAIN begun
@@ -116,11 +117,11 @@ EndViolations ==
 RunEnd ==
     /\ Ev.ev = "RunEnd"
     /\ bad' = bad \o EndViolations
-    /\ UNCHANGED <<run, exp, faults, begun, ended, failed, tainted>>
+    /\ UNCHANGED <<run, exp, faults, begun, ended, failed, tainted, weakp>>
 
 Other ==
     /\ Ev.ev \notin {"RunBegin", "StageBegin", "StageEnd", "RunEnd"}
-    /\ UNCHANGED <<run, exp, faults, begun, ended, failed, tainted, bad>>
+    /\ UNCHANGED <<run, exp, faults, begun, ended, failed, tainted, weakp, bad>>
 
 Next == /\ l <= Len(Trace)
         /\ l' = l + 1
